@@ -80,7 +80,18 @@ Definition replace_check
       else 10
     | (gm, _, Err k) =>
       if negb (Nat.eqb status (err_code k)) then 13
-      else if graph_eqb gm res then 0 else 11
+      else if graph_eqb gm res then 0
+      else
+        (* the call raised half-way: the new ids cannot be matched through maps, so the
+           comparison is: same old part, same labels of the new nodes and new edges *)
+        let oldn g := filter (fun n => id_below nx (n_id n)) (g_nodes g) in
+        let olde g := filter (fun e => id_below nx (e_id e)) (g_edges g) in
+        let newn g := map n_label (filter (fun n => negb (id_below nx (n_id n))) (g_nodes g)) in
+        let newe g := map e_label (filter (fun e => negb (id_below nx (e_id e))) (g_edges g)) in
+        if list_eqb node_eqb (oldn gm) (oldn res) && list_eqb edge_eqb (olde gm) (olde res)
+           && list_eqb node_eqb (g_ext gm) (g_ext res) && perm_eqb elabel_eqb (g_elabs gm) (g_elabs res)
+           && perm_eqb Nat.eqb (newn gm) (newn res) && perm_eqb elabel_eqb (newe gm) (newe res)
+        then 20 else 11
     end.
 
 (** ** start_graph.  input: start label, counter, the implementation's graph (fresh ids numbered
@@ -166,7 +177,8 @@ Definition named_asst (nn : list (node * name)) (a : asst_t) : list (name * nat)
     verdicts: 0 ok; 1 graph not isomorphic to [derived_graph]; 2 assignment not total on the
     graph's nodes; 3 weight product differs from the product of the rule-instance
     weights; 4 tree not well-formed (harness bug); 10 differs from derive_model; 11 model raised;
-    12 assignment (through the names) is not the denotational [derived_asst];
+    12 some value of the assignment is not the value the denotational [derived_asst] gives to
+    the name of that node (the Prop proved of the model in C15_derive_assignment);
     20 equal to the model up to dict order *)
 Definition derive_check
   (x : wtree * nat * (wgraph * list (wnode * nat) * list (wnode * wname) * list (wedge * wname)) * wtab * N) : nat :=
@@ -184,10 +196,10 @@ Definition derive_check
     if negb (same_upto_naming g nn en d) then 1
     else if negb (forallb (fun v => amem node_eqb a v) (g_nodes g)) then 2
     else if negb (nodupb node_eqb (map fst a)
-                  && perm_eqb nv_eqb
-                       (flat_map (fun vx => match aget node_eqb nn (fst vx) with
-                                            | Some nmv => [(nmv, snd vx)] | None => [] end) a)
-                       (derived_asst t)) then 12
+                  && forallb (fun vy => match aget node_eqb nn (fst vy) with
+                                        | Some x => memb nv_eqb (derived_asst t) (x, snd vy)
+                                        | None => false
+                                        end) a) then 12
     else match graph_weight N_ops w g a, tree_weight N_ops w t with
          | Some p1, Some p2 =>
            if negb (N.eqb p1 p2 && N.eqb p1 pimpl) then 3
